@@ -363,8 +363,9 @@ def json_values():
         # instants at the two ends of the calendar, where a UTC offset steps over them
         "0001-01-01T00:00:00+10:00", "0001-01-01T00:00:00-10:00", "9999-12-31T23:59:59-10:00", "9999-12-31T23:59:59+10:00", "0001-01-01T00:00:00+00:00",
         "2106-02-07T06:28:16+00:00", "1969-12-31T23:59:59+00:00", "2009-01-03T18:15:05+23:59", "2009-01-03T18:15:05.999999+00:00",
-        # what a json loader hands over with parse_float / parse_int = Decimal
-        Decimal("Infinity"), Decimal("-Infinity"), Decimal("NaN"), Decimal("sNaN"), Decimal("1"), Decimal("1.5"), Decimal("1E+400"), Decimal("-0"),
+        # what a json loader hands over with parse_float / parse_int / parse_constant = Decimal (a *signalling* NaN is not
+        # among them: no JSON text decodes to one, and every comparison with it raises by design)
+        Decimal("Infinity"), Decimal("-Infinity"), Decimal("NaN"), Decimal("1"), Decimal("1.5"), Decimal("1E+400"), Decimal("-0"),
         Decimal("0.00000001"), Decimal("21000000"),
         [], [[]], [None], [0], [1, 2, 3], [""], ["00"], ["zz"], [[], []], [{}], [True], [1.5], [0] * 1000, ["00"] * 300, deep,
         {}, {"a": 1}, {"": ""}, {"00": "00"}, {"a": None}, {"a": []}, {"a": {}}, {"zz": "zz"}, {"0": 0}, deepd,
